@@ -3,13 +3,14 @@
 # Used only for sensitivity experiments; never leaves /repo modified.
 set -u
 what="$1"; id="$2"; tier="${3:-quick}"
-cd /repo || exit 2
+REPO="${VERIF_REPO:-/repo}"; ROOT="${VERIF_ROOT:-/verif}"   # a snapshot run (vp run --with-repo) sets both
+cd "$REPO" || exit 2
 if [ -n "$(git status --porcelain --untracked-files=no)" ]; then echo "/repo not clean"; exit 2; fi
-restore() { git -C /repo reset -q --hard HEAD; }
+restore() { git -C "$REPO" reset -q --hard HEAD; }
 trap restore EXIT
 case "$what" in
   revert:*) git diff "${what#revert:}"^ "${what#revert:}" | git apply -R || { echo "cannot revert"; exit 2; } ;;
-  *) case "$what" in /*) ;; *) what="/verif/$what";; esac; git apply "$what" || { echo "cannot apply $what"; exit 2; } ;;
+  *) case "$what" in /*) ;; *) what="$ROOT/$what";; esac; git apply "$what" || { echo "cannot apply $what"; exit 2; } ;;
 esac
-cd /verif && ./run.sh "$id" "$tier" 2>/dev/null | grep -E "VIOLATION|KNOWN-FINDING|INCONCLUSIVE|property=|unit=" | cut -c1-400
+cd "$ROOT" && ./run.sh "$id" "$tier" 2>/dev/null | grep -E "VIOLATION|KNOWN-FINDING|INCONCLUSIVE|property=|unit=" | cut -c1-400
 echo "exit=${PIPESTATUS[0]}"
